@@ -81,8 +81,19 @@ fn tree_snapshot(snap: Snap, ent: &dyn Fn(u32) -> String) -> String {
         }
         i = j + 1;
     }
+    // the raw arena (every slot: sentinel, linked, freed, never used), for the arena-level model:
+    // root, then parent left right colour entity per slot
+    if n <= RAW_ARENA_MAX {
+        let _ = write!(s, " # {}", root);
+        for (i, (p, l, r, red)) in nodes.iter().enumerate() {
+            let _ = write!(s, " ; {} {} {} {} {}", p, l, r, if *red { "R" } else { "B" }, ent(i as u32));
+        }
+    }
     s
 }
+
+/// Arenas of at most this many slots are dumped raw beside the abstracted tree.
+const RAW_ARENA_MAX: u32 = 48;
 
 fn h(handle: u32) -> String {
     if handle == EMPTY_REF {
